@@ -1281,6 +1281,181 @@ pub open spec fn wellsized_cast(kind: CastOpType, a: Bitvector, t: nat) -> bool 
 pub open spec fn pcode_subpiece(a: Bitvector, low: nat, t: nat) -> Bitvector {
     bv(t, (a.u@ / p2(low)) % p2(t))
 }
+// ======== include lemmas/mul.rs ========
+// ---------------------------------------------------------------------------
+// lemmas/mul.rs -- truncating division facts and the overflow test of
+// signed multiplication (no assumptions).
+// ---------------------------------------------------------------------------
+
+pub open spec fn iabs(x: int) -> int { if x < 0 { -x } else { x } }
+
+/// Euclidean facts for a non-negative dividend and a positive divisor
+pub proof fn lemma_div_pos(x: int, y: int)
+    requires x >= 0, y > 0
+    ensures x == y * (x / y) + x % y, 0 <= x % y < y, 0 <= x / y <= x,
+{
+    vstd::arithmetic::div_mod::lemma_fundamental_div_mod(x, y);
+    vstd::arithmetic::div_mod::lemma_mod_bound(x, y);
+    vstd::arithmetic::div_mod::lemma_div_pos_is_pos(x, y);
+    assert(x / y <= x) by (nonlinear_arith)
+        requires x == y * (x / y) + x % y, 0 <= x % y, y >= 1, x / y >= 0;
+}
+
+pub proof fn lemma_tdiv_props(a: int, b: int)
+    requires b != 0
+    ensures a == b * tdiv(a, b) + trem(a, b),
+            iabs(trem(a, b)) < iabs(b),
+            a >= 0 ==> trem(a, b) >= 0,
+            a <= 0 ==> trem(a, b) <= 0,
+            iabs(tdiv(a, b)) <= iabs(a),
+            (a >= 0 && b > 0 || a <= 0 && b < 0) ==> tdiv(a, b) >= 0,
+            (a >= 0 && b < 0 || a <= 0 && b > 0) ==> tdiv(a, b) <= 0,
+{
+    if a >= 0 && b > 0 {
+        lemma_div_pos(a, b);
+    } else if a >= 0 && b < 0 {
+        lemma_div_pos(a, -b);
+        let q = a / (-b);
+        assert(b * (-q) == (-b) * q) by (nonlinear_arith);
+    } else if a < 0 && b > 0 {
+        lemma_div_pos(-a, b);
+        let q = (-a) / b;
+        assert(b * (-q) == -(b * q)) by (nonlinear_arith);
+    } else {
+        lemma_div_pos(-a, -b);
+        let q = (-a) / (-b);
+        assert(b * q == -((-b) * q)) by (nonlinear_arith);
+    }
+}
+
+/// exact division: (a*b) tdiv a == b
+pub proof fn lemma_tdiv_exact(a: int, b: int)
+    requires a != 0
+    ensures tdiv(a * b, a) == b, trem(a * b, a) == 0,
+{
+    lemma_tdiv_props(a * b, a);
+    let q = tdiv(a * b, a);
+    let r = trem(a * b, a);
+    assert(a * (b - q) == r) by (nonlinear_arith) requires a * b == a * q + r;
+    if b != q {
+        assert(iabs(a * (b - q)) >= iabs(a)) by (nonlinear_arith) requires b != q, a != 0;
+    }
+    assert(a * 0 == 0);
+}
+
+/// The overflow test of `signed_mult_with_overflow_flag` (with both quotient checks):
+/// sr is the wrapped product.  The two checks pass exactly when the true product is representable.
+pub proof fn lemma_mul_overflow_check(w: nat, sa: int, sb: int, sr: int, k: int)
+    requires w >= 2, sa != 0,
+             smin(w) <= sa <= smax(w), smin(w) <= sb <= smax(w), smin(w) <= sr <= smax(w),
+             sa * sb == sr + k * p2(w),
+    ensures ({
+        let ok1 = trunc(w, tdiv(sr, sa)) == trunc(w, sb);
+        let ok2 = sb == 0 || trunc(w, tdiv(sr, sb)) == trunc(w, sa);
+        let fits = smin(w) <= sa * sb <= smax(w);
+        &&& (ok1 && ok2) == fits
+        &&& fits ==> sr == sa * sb
+    }),
+{
+    let p = p2(w) as int;
+    let h = p2((w - 1) as nat) as int;
+    lemma_p2(w); lemma_p2((w - 1) as nat); lemma_p2((w - 2) as nat);
+    assert(p == 2 * h && h >= 2);
+    let fits = smin(w) <= sa * sb <= smax(w);
+    if fits {
+        // both in range and congruent -> equal
+        assert(k == 0) by (nonlinear_arith)
+            requires sa * sb == sr + k * p, -h <= sa * sb < h, -h <= sr < h, p == 2 * h, h > 0;
+        assert(sr == sa * sb);
+        lemma_tdiv_exact(sa, sb);
+        if sb != 0 {
+            assert(sa * sb == sb * sa) by (nonlinear_arith);
+            lemma_tdiv_exact(sb, sa);
+        }
+    } else {
+        // show: ok1 && ok2 is impossible
+        let q1 = tdiv(sr, sa);
+        lemma_tdiv_props(sr, sa);
+        if trunc(w, q1) == trunc(w, sb) {
+            if q1 <= smax(w) {
+                // q1 in range (|q1| <= |sr| <= h), so q1 == sb
+                lemma_trunc_sval(w, q1); lemma_trunc_sval(w, sb);
+                assert(q1 == sb);
+                let r = trem(sr, sa);
+                // sr == sa*sb + r,  sa*sb == sr + k*p  ->  r == -k*p, |r| < |sa| <= h < p -> k == 0
+                assert(k == 0) by (nonlinear_arith)
+                    requires sr == sa * sb + r, sa * sb == sr + k * p, iabs(r) < iabs(sa), iabs(sa) <= h, p == 2 * h, h > 0;
+                assert(false);
+            } else {
+                // q1 == h: only for sr == -h and sa == -1; then sb == -h and the second check fails
+                assert(q1 == h);
+                assert(iabs(sr) == h && iabs(sa) == 1) by (nonlinear_arith)
+                    requires sr == sa * q1 + trem(sr, sa), q1 == h, iabs(trem(sr, sa)) < iabs(sa), -h <= sr < h, sa != 0, h > 0,
+                             sr >= 0 ==> trem(sr, sa) >= 0, sr <= 0 ==> trem(sr, sa) <= 0;
+                assert(sr == -h);
+                assert(sa == -1) by {
+                    if sa == 1 { assert(tdiv(-h, 1) == -(h / 1)); assert(h / 1 == h) by { vstd::arithmetic::div_mod::lemma_div_basics_3(h); } }
+                }
+                lemma_trunc_unique(w, h, 0, h);
+                lemma_trunc_sval(w, sb);
+                assert(sb == -h);
+                // second check: tdiv(-h, -h) == 1, trunc(1) == 1 != trunc(-1) == p - 1
+                assert(tdiv(sr, sb) == 1) by { vstd::arithmetic::div_mod::lemma_div_basics_3(h); assert(h / h == 1) by { vstd::arithmetic::div_mod::lemma_div_by_self(h); } }
+                lemma_trunc_id(w, 1);
+                lemma_trunc_sval(w, sa);
+                assert(trunc(w, sa) == p - 1);
+            }
+        }
+    }
+}
+
+pub proof fn lemma_trunc_eq_congruent(w: nat, x: int, y: int)
+    requires trunc(w, x) == trunc(w, y)
+    ensures x == y + ((x - y) / (p2(w) as int)) * p2(w),
+{
+    lemma_trunc_range(w, x); lemma_trunc_range(w, y);
+    let p = p2(w) as int;
+    let (qx, qy) = (x / p, y / p);
+    assert(x - y == (qx - qy) * p + 0) by (nonlinear_arith)
+        requires x == qx * p + trunc(w, x), y == qy * p + trunc(w, y), trunc(w, x) == trunc(w, y);
+    lemma_p2(w);
+    vstd::arithmetic::div_mod::lemma_fundamental_div_mod_converse(x - y, p, qx - qy, 0);
+}
+
+/// what `signed_mult_with_overflow_flag` needs to know about its operands
+pub proof fn lemma_mul_flag_facts(a: Bitvector, b: Bitvector)
+    requires a.wf(), b.wf(), a.w@ == b.w@, a.w@ >= 2
+    ensures ({
+        let w = a.w@;
+        let r = bv_mul(a, b);
+        let fits = smin(w) <= a.s() * b.s() <= smax(w);
+        let ok1 = trunc(w, tdiv(r.s(), a.s())) == b.u@;
+        let ok2 = b.u@ == 0 || trunc(w, tdiv(r.s(), b.s())) == a.u@;
+        &&& r.wf()
+        &&& (a.u@ == 0) == (a.s() == 0) && (b.u@ == 0) == (b.s() == 0)
+        &&& a.u@ != 0 ==> (ok1 && ok2) == fits
+        &&& a.u@ == 0 ==> fits && r.u@ == 0
+        &&& fits ==> r.s() == a.s() * b.s()
+    }),
+{
+    let w = a.w@;
+    let r = bv_mul(a, b);
+    lemma_sval(w, a.u@); lemma_sval(w, b.u@);
+    lemma_trunc_range(w, (a.u@ * b.u@) as int);
+    lemma_sval(w, r.u@);
+    // trunc(sa*sb) == trunc(ua*ub) == ur == trunc(sr)
+    lemma_trunc_mul(w, a.s(), b.s());
+    lemma_trunc_eq_congruent(w, a.s() * b.s(), r.s());
+    let k = (a.s() * b.s() - r.s()) / (p2(w) as int);
+    if a.u@ != 0 {
+        lemma_mul_overflow_check(w, a.s(), b.s(), r.s(), k);
+    } else {
+        assert(a.s() * b.s() == 0) by (nonlinear_arith) requires a.s() == 0;
+        assert(a.u@ * b.u@ == 0) by (nonlinear_arith) requires a.u@ == 0;
+        lemma_trunc_id(w, 0);
+        lemma_p2((w - 1) as nat);
+    }
+}
 // ======== include lemmas/pcode_bv.rs ========
 // ---------------------------------------------------------------------------
 // lemmas/pcode_bv.rs -- proved facts used by the C01 contracts (no assumptions).
@@ -1602,7 +1777,7 @@ impl Bitvector {
                 let result = Int::from(self - rhs);
                 let signed_self = Int::from(self.clone());
                 let signed_rhs = Int::from(rhs.clone());
-                if (result.is_negative() && !signed_self.is_positive() && signed_rhs.is_negative())
+                if (result.is_negative() && signed_self.is_positive() && signed_rhs.is_negative())
                     || (result.is_positive()
                         && signed_self.is_negative()
                         && signed_rhs.is_positive())
@@ -1752,7 +1927,7 @@ impl Bitvector {
 // ---- extracted fn bv::impl BitvectorExtended for Bitvector::signed_mult_with_overflow_flag ----
 impl Bitvector {
     fn signed_mult_with_overflow_flag( & self , rhs : & Bitvector ) -> (r: Result < ( Bitvector , bool ) , Error >)
-    requires self.wf(), rhs.wf(), self.w@ == rhs.w@,
+    requires self.wf(), rhs.wf(), self.w@ == rhs.w@, self.w@ >= 2,
     ensures r is Err <==> (self.u@ != 0 && self.w@ > 64),
             r is Ok ==> ({
                 let (v, flag) = r->Ok_0;
@@ -1761,6 +1936,8 @@ impl Bitvector {
                 &&& !flag ==> v.s() == self.s() * rhs.s()
             }),
     {
+        proof { lemma_mul_flag_facts(*self, *rhs); }
+
         if self.is_zero() {
             Ok((Bitvector::zero(self.width()), false))
         } else if self.width().to_usize() > 64 {
@@ -1768,7 +1945,9 @@ impl Bitvector {
             Err(verif_error())
         } else {
             let result = self.clone().into_checked_mul(rhs).unwrap();
-            if result.clone().into_checked_sdiv(self).unwrap() != *rhs {
+            if result.clone().into_checked_sdiv(self).unwrap() != *rhs
+                || (!rhs.is_zero() && result.clone().into_checked_sdiv(rhs).unwrap() != *self)
+            {
                 Ok((result, true))
             } else {
                 Ok((result, false))
